@@ -198,6 +198,56 @@ Proof.
 Qed.
 Print Assumptions C10_recreate_stale_refuted.
 
+(* The source partition deleted (TRUNCATE of a partition nothing holds) and its descriptor dropped by the pipes cleaner;
+   whatever is written to those tags afterwards goes to a new partition: the destination keeps what it has and gains
+   exactly the matching events of the new partition, in order (model: drop_source). *)
+Theorem C10_drop_source : forall af tags s1 sched,
+  alive s1 = true ->
+  (af = true \/ Forall write_all_keep sched) -> Forall enq_in_order sched ->
+  let s := run af tags (drop_source s1) sched in
+  alive s = true -> quiescent s = true -> dst s = dst s1 ++ expected tags 0 (log s).
+Proof. exact drop_source_exact. Qed.
+Print Assumptions C10_drop_source.
+
+(* Destination writes that fail (label LRefuse: Journals.Write returns an error at the record the worker hands over; the
+   worker sleeps and tries again from that record) are steps of the schedules C10_exact_partial quantifies over: they do
+   not break exactly-once. What they break:
+   (1) a record whose copy is refused EVERY time (its size with the provenance fields exceeds MaxRecordSize) keeps the
+       worker at that record for ever -- nothing behind it is copied (finding pipe-blocked-by-oversized-copy); *)
+Theorem C10_refused_forever : forall af tags s cp e n,
+  alive s = true -> wrk s = Some (WCopy cp) -> (cp <? cfrm s) = true -> nth_error (log s) cp = Some e -> passes af e = true ->
+  desc s <> None ->
+  run af tags s (concat (repeat [LRefuse false; LWork] n)) = s.
+Proof. exact refused_forever. Qed.
+Print Assumptions C10_refused_forever.
+
+(* (2) a clean restart while the worker sleeps between two attempts (stop_retrying): the records the failed write had
+       stored are copied again unless the worker saved the position it had reached (save = true). *)
+Definition refuse_is (save : bool) (l : label) : Prop := match l with LRefuse b => b = save | _ => True end.
+Definition C10_retry_restart_statement (save : bool) : Prop :=
+  forall tags pre sched1 sched2,
+    Forall enq_in_order sched1 -> Forall enq_in_order sched2 -> Forall (refuse_is save) sched1 -> Forall (refuse_is save) sched2 ->
+    let s1 := run true tags (init pre (length pre)) sched1 in
+    let s := run true tags (stop_retrying s1) sched2 in
+    alive s = true -> quiescent s = true -> dst s = expected tags (length pre) (log s).
+
+Definition rr_ev (n : Z) : event := {| e_ts := n; e_msg := [x6d]; e_flds := []; e_keep := true |}.
+Definition rr_sched1 (save : bool) : list label :=
+  [LWrite [rr_ev 1; rr_ev 2; rr_ev 3]; LEnq 0; LDeliver; LFlush; LWork; LWork; LWork; LRefuse save].
+
+(* the code as it stands (worker.run: `continue` without saveState): a, b stored, the write fails at c, restart, the
+   next write starts the worker at the old position: a, b are copied twice *)
+Theorem C10_restart_while_retrying_refuted : ~ C10_retry_restart_statement false.
+Proof.
+  intros H. specialize (H [] [] (rr_sched1 false) (sched_write [rr_ev 4] ++ works 8)).
+  assert (H1 : Forall enq_in_order (rr_sched1 false)) by (repeat constructor).
+  assert (H2 : Forall enq_in_order (sched_write [rr_ev 4] ++ works 8)) by (repeat constructor).
+  assert (H3 : Forall (refuse_is false) (rr_sched1 false)) by (repeat constructor).
+  assert (H4 : Forall (refuse_is false) (sched_write [rr_ev 4] ++ works 8)) by (repeat constructor).
+  specialize (H H1 H2 H3 H4). vm_compute in H. specialize (H eq_refl eq_refl). discriminate H.
+Qed.
+Print Assumptions C10_restart_while_retrying_refuted.
+
 (* ---- non-vacuity ---- *)
 Definition ev (n : Z) (k : bool) : event := {| e_ts := n; e_msg := [x6d]; e_flds := [([x66], [x31])]; e_keep := k |}.
 Definition demo_tags : list (bytes * bytes) := [([x61], [x62])].
@@ -235,4 +285,28 @@ Example C10_recreate_demo :
   quiescent s1 = true /\ alive s1 = false /\ option_map p_pos (desc s1) = Some 2 /\ map d_ts (dst s1) = [1; 2]%Z /\
   desc (recreate s1) = None /\
   alive s = true /\ quiescent s = true /\ map d_ts (dst s) = [4]%Z.
+Proof. vm_compute. repeat split. Qed.
+
+(* a destination write that fails once and succeeds at the next attempt: every event is copied exactly once *)
+Example C10_refuse_demo :
+  let sched := [LWrite [ev 1 true; ev 2 true; ev 3 true]; LEnq 0; LDeliver; LFlush; LWork; LWork; LRefuse false; LWork] ++ works 8 in
+  let s := run true demo_tags (init [] 0) sched in
+  wrk (run true demo_tags (init [] 0) (firstn 7 sched)) = Some (WRetry 1) /\
+  alive s = true /\ quiescent s = true /\ map d_ts (dst s) = [1; 2; 3]%Z.
+Proof. vm_compute. repeat split. Qed.
+
+(* the restart between two attempts: with the position saved at the failure nothing is copied twice; the witness of
+   C10_restart_while_retrying_refuted copies a, b twice *)
+Example C10_restart_while_retrying_demo :
+  let fin := fun save => run true [] (stop_retrying (run true [] (init [] 0) (rr_sched1 save))) (sched_write [rr_ev 4] ++ works 8) in
+  wrk (run true [] (init [] 0) (rr_sched1 false)) = Some (WRetry 2) /\
+  map d_ts (dst (fin true)) = [1; 2; 3; 4]%Z /\ quiescent (fin true) = true /\
+  map d_ts (dst (fin false)) = [1; 2; 1; 2; 3; 4]%Z /\ quiescent (fin false) = true.
+Proof. vm_compute. repeat split. Qed.
+
+(* a source partition that is dropped and written again: the destination keeps a, b and gains c *)
+Example C10_drop_source_demo :
+  let s1 := run true demo_tags (init [] 0) (sched_write [ev 1 true; ev 2 true]) in
+  let s := run true demo_tags (drop_source s1) (sched_write [ev 3 true]) in
+  quiescent s1 = true /\ desc (drop_source s1) = None /\ alive s = true /\ quiescent s = true /\ map d_ts (dst s) = [1; 2; 3]%Z.
 Proof. vm_compute. repeat split. Qed.
